@@ -120,6 +120,9 @@ type Plan struct {
 	// transmission fails. A disconnect response is fire-and-forget: whether it could be written changes nothing about
 	// what the client does next (it reconnects), so the reference models need not know.
 	FailDiscRes []int `json:"fail_discres,omitempty"`
+	// FailHb: indices (counting the connection-state requests the client hands to its socket, from 0) whose
+	// transmission the socket refuses with an error: that heartbeat has failed there and then
+	FailHb []int `json:"fail_hb,omitempty"`
 	Group       bool  `json:"group,omitempty"`
 }
 
@@ -370,6 +373,7 @@ type Sim struct {
 	nConn, nHb    int
 	nAck, nDisc   int
 	nDiscRes      int // disconnect responses handed to the socket so far
+	nHbOut        int // connection-state requests handed to the socket so far
 	behind        int // requests to put behind the next OK connect response (GwStep.Behind) and their first tag
 	behindTag     int
 	curChan       int // channel of the last OK connect response injected
@@ -491,6 +495,16 @@ func (s *Sim) onSend(f *common.OutFrame) error {
 				}
 			}
 			s.nDiscRes++
+			s.mu.Unlock()
+		}
+		if _, isHb := f.Svc.(*knxnet.ConnStateReq); isHb {
+			s.mu.Lock()
+			for _, x := range p.FailHb {
+				if x == s.nHbOut {
+					fail = true
+				}
+			}
+			s.nHbOut++
 			s.mu.Unlock()
 		}
 		if fail {
